@@ -10,4 +10,5 @@ INVARIANT Duality
 INVARIANT IdNeutral
 INVARIANT ProxySame
 INVARIANT AddCommutes
+INVARIANT DefaultsNeutral
 INVARIANT Emit
